@@ -41,6 +41,8 @@ var fixedVersions = []string{
 	// unparsable
 	"", "abc", "0.5", "0", "v0.5.12", "0.5.012", "00.5.12", "0.5.12.1", " 0.5.12", "0.5.12 ", "0.5.12\x00x", "0,5,12", "0.5.-12", "0.5.1２", "..", "0.5.", ".5.12",
 	"==0.5.12", "0.5.12 || 1.0.0", "*", "x.y.z", "0.5.x", "1", "1.0", "+", "-",
+	// malformed build metadata behind a compatible core (well-formed metadata is NOT injected, see looksCompatible)
+	"0.5.12+", "0.5.12+?", "0.5.9+", "1.0.0+a..b", "0.5.12+.", "0.5.10+a.", "0.5.11+ x", "0.5.12+a+b", "0.5.8+\x01", "0.5.12-+", "0.5.12+\xff",
 	// numeric aliasing under packed / truncated comparisons
 	"0.4.65548", "0.5.65548", "0.65536.0", "0.5.268", "0.4.112", "0.0.512", "0.5.4294967308", "1.0.65536", "256.0.0", "0.261.12",
 	// 16-byte non-terminated fields
@@ -133,7 +135,7 @@ func genVersion(r *Rng) []byte {
 		}
 		i := r.Intn(n)
 		old := b[i]
-		b[i] = byte("0123456789.-ax "[r.Intn(15)])
+		b[i] = byte("0123456789.-ax +?"[r.Intn(17)])
 		if b[i] == old {
 			b[i] = 'z'
 		}
@@ -156,11 +158,37 @@ func looksCompatible(v []byte) bool {
 	}
 	s := string(v[:n])
 	for _, c := range []string{"1.0.0", "0.5.8", "0.5.9", "0.5.10", "0.5.11", "0.5.12"} {
-		if s == c || (len(s) > len(c) && s[:len(c)] == c && s[len(c)] == '+') {
+		if s == c || (len(s) > len(c) && s[:len(c)] == c && s[len(c)] == '+' && validBuildMeta(s[len(c)+1:])) {
 			return true
 		}
 	}
 	return false
+}
+
+// validBuildMeta: semver 2.0.0 section 10 - a series of dot separated, non-empty
+// identifiers of [0-9A-Za-z-]. Only then is "<compatible>+<meta>" a well-formed
+// version equal in precedence to the compatible one; "0.5.12+", "0.5.12+?" or
+// "1.0.0+a..b" are unparsable version strings and must be rejected.
+func validBuildMeta(m string) bool {
+	if m == "" {
+		return false
+	}
+	idLen := 0
+	for i := 0; i < len(m); i++ {
+		ch := m[i]
+		switch {
+		case ch == '.':
+			if idLen == 0 {
+				return false
+			}
+			idLen = 0
+		case ch >= '0' && ch <= '9', ch >= 'a' && ch <= 'z', ch >= 'A' && ch <= 'Z', ch == '-':
+			idLen++
+		default:
+			return false
+		}
+	}
+	return idLen > 0
 }
 
 func genC07(r *Rng, tier string, worker, run int) *C07Scn {
@@ -209,7 +237,7 @@ func genC07(r *Rng, tier string, worker, run int) *C07Scn {
 	if c.Spec != nil {
 		enc = c.Spec.Enc
 	}
-	priors := []string{"fresh", "built", "loaded", "reset", "rejected"}
+	priors := []string{"fresh", "built", "loaded", "reset", "rejected", "zero"}
 	if enc == "i32" {
 		priors = append(priors, "legacy", "legacy")
 	}
@@ -319,6 +347,11 @@ func priorInstance(kind, enc string) (st *trie.SlimTrie, held bool) {
 		}
 	}()
 	switch kind {
+	case "zero":
+		// the zero value (var st trie.SlimTrie / new(trie.SlimTrie)), the way
+		// proto.Message users create a receiver; it has no encoder, but a
+		// rejected load must still leave it answering as empty
+		return &trie.SlimTrie{}, false
 	case "built":
 		s, err := priorSpecFor(enc).build()
 		if err == nil {
@@ -484,7 +517,11 @@ func executeC07(scn *Scenario) *RunResult {
 	// fault-free control (separate configuration): the uncut stream loads.
 	var refSteps int64
 	{
-		st, _ := priorInstance(c.Prior, enc)
+		ctlPrior := c.Prior
+		if ctlPrior == "zero" {
+			ctlPrior = "fresh" // the control needs an encoder for legacy layouts; the faults below use the zero value
+		}
+		st, _ := priorInstance(ctlPrior, enc)
 		disk := newDisk()
 		disk.Write("f", stream, func() int { return c.Chunk }, -1)
 		var err error
